@@ -178,6 +178,23 @@ theorem scratch_restored (exits : List Exit) (body : List Stmt)
     (hx : ExecL body [] e σ') : σ' = [] :=
   restoresOn_sound exits body h he hx
 
+/-- the translator marks a `_clean_up(P)` that may hit the CALLER's directory -- `P` is a
+scratch parameter re-bound by `P = mkdtemp(dir=P)` somewhere that does not dominate the
+clean-up, e.g. inside the `try` whose `finally` cleans `P` -- by creating the reserved slot
+`harmSlot`, which nothing ever cleans.  So the same obligation also says: on no path is
+something of the caller's removed. -/
+def harmSlot : Nat := 1000
+
+theorem caller_dir_never_removed (exits : List Exit) (body : List Stmt)
+    (h : restoresOn exits body = true) {e : Exit} {σ' : Live} (he : e ∈ exits)
+    (hx : ExecL body [] e σ') : harmSlot ∉ σ' := by
+  rw [scratch_restored exits body h he hx]
+  simp
+
+/-- the shape of seeded change C19_7 (`mkdtemp` moved inside the `try`) fails the obligation -/
+example : restoresOn [.exc] [.tryFinally [.mk 2 0, .call] [.mk harmSlot 0, .clean 2]] = false := by
+  decide
+
 /-- non-vacuity: an execution that raises inside the protected region, and the analysis of
 a skeleton with the clean-up outside the `finally` (which does leak) -/
 example : ExecL [.mk 2 0, .tryFinally [.call] [.clean 2]] [] .exc [] :=
